@@ -15,7 +15,10 @@ import (
 // instances so that they collide often. It contains dotted names, the empty
 // name, names that are suffixes of each other, names that look like indices,
 // non-ASCII names and (a counted minority) "id" and "$schema".
-var Names = []string{"a", "b", "c", "x", "xx", "a.b", "b.a", "", "0", "1", "é", "ab", "id", "$schema", "items", "x.x", "examples", "example", "default", "properties", "type", "100%", "%d", "%s%s", "IMPORTANT!x"}
+var Names = []string{"a", "b", "c", "x", "xx", "a.b", "b.a", "", "0", "1", "é", "ab", "id", "$schema", "items", "x.x", "examples", "example", "default", "properties", "type", "100%", "%d", "%s%s", "IMPORTANT!x", long64 + "A", long64 + "B"}
+
+// two names that share their first 64 bytes
+const long64 = "n123456789012345678901234567890123456789012345678901234567890123"
 
 // Strings is the pool of string values.
 var Strings = []string{"", "a", "b", "ab", "abc", "A", "aB", "é", "日本", "é", "x", "aaa", "0", "1", "2020-01-01", "2020-13-45", "a b", "ü", "\U0001F600", "null", "true"}
